@@ -429,6 +429,22 @@ func VH_C02_Named(p []int) {
 	case 10: // leading/trailing newline of a leaf is text, not a blank
 		s = List().SetNoPadding(true).Push("\nx\n")
 		want = "\nx\n"
+	case 11: // what an earlier rendering saw is history: pairs taken back and
+		// replaced by as many others (no rendering in between) are the ones used
+		s = And().Push("a", "b")
+		s.SetEncap(`"`)
+		verifAssert(s.String() == `"a" AND "b"`, "named-case-first-render")
+		s.SetEncap()
+		s.SetEncap(`'`)
+		want = `'a' AND 'b'`
+	case 12: // the same one level down with a two-character pair, rendered through the parent
+		inner := List().SetDelimiter(",").Push("x", "y z")
+		inner.SetEncap([]string{"[", "]"})
+		s = Or().Paren().Push("k", inner)
+		verifAssert(s.String() == "( k OR [x] , [y z] )", "named-case-first-render")
+		inner.SetEncap()
+		inner.SetEncap([]string{"<", ">"})
+		want = "( k OR <x> , <y z> )"
 	}
 	got := s.String()
 	verifObserve("got", got)
